@@ -111,6 +111,7 @@ type c10Env struct {
 	prefix []byte // JSON prefix for current_case.json
 	skipped *int
 	warnings int // journal bootstrap warnings of the last open
+	fuzz     bool // arbitrary file content (native fuzz targets) instead of one enumerated fault
 }
 
 func c10Mutate(orig []byte, off int, variant string) ([]byte, bool) {
@@ -230,7 +231,11 @@ func (e *c10Env) runVariant(off int, variant string, mutated []byte) (outcome, v
 	// must show the LAST acknowledged root, every acknowledged chunk, and must not have shrunk the
 	// journal below the last acknowledged size. A torn-tail warning does not excuse losing
 	// acknowledged commits; only an error (e.g. ErrJournalDataLoss) or model-equal data is fine.
-	if c.Backend == "journal" && c.Kind == "journal" {
+	if c.Backend == "journal" && c.Kind == "journal" && e.fuzz {
+		// arbitrary journal bytes (fuzzing): truncation and re-framing are legal inputs here, so the
+		// "last acknowledged root" rule does not apply; only crashes and foreign bytes under a stored
+		// address count (checked below)
+	} else if c.Backend == "journal" && c.Kind == "journal" {
 		n := len(c.Commits)
 		at := -1
 		for k, cm := range c.Commits {
@@ -352,7 +357,7 @@ func (e *c10Env) runVariant(off int, variant string, mutated []byte) (outcome, v
 	case silentAbsent > 0:
 		// table files and archives carry no index checksum: a flipped address byte makes a chunk
 		// unreachable without any way for the reader to notice. Not misread data; recorded.
-		if c.Kind == "journal" || c.Kind == "manifest" {
+		if (c.Kind == "journal" && !e.fuzz) || c.Kind == "manifest" {
 			return "silent_absent", fmt.Sprintf("open and reads succeeded without any error (%d bootstrap warning(s)), Root() = %s is the last acknowledged root, yet %d acknowledged chunk(s) are reported absent", e.warnings, root, silentAbsent)
 		}
 		return "silent_absent", ""
